@@ -6,7 +6,7 @@
     is ANY function returning a value or an error (a Go runtime error inside it is an error too: Decode's
     recover converts every panic whose value implements [error]); values of the model are never nil.
     [lengths_bounded bs] is the property's hypothesis "declared lengths bounded by the input size". *)
-From Dawn Require Import Pickle.Model Pickle.Proofs_C15.
+From Dawn Require Import Pickle.Model Pickle.Source Pickle.Proofs_C15 Pickle.Proofs_Source.
 Require Dawn.Build.Model Dawn.Build.Proofs_Skip.
 Open Scope N_scope.
 
@@ -23,6 +23,28 @@ Theorem decode_total : forall unp bs,
     decode unp bs = Err \/ exists v h, decode unp bs = Ok (v, h).
 Proof. exact decode_total_proof. Qed.
 Print Assumptions decode_total.
+
+(** The decoder reads from a SOURCE (Pickle/Source.v): any bytes, after which the reader fails -- by ending (io.EOF) or with
+    any other error, sticky or transient (a damaged base64 character of the persisted stamp).  Whatever the bytes and
+    whatever the failure, decoding from it neither hangs nor returns (nil, nil), and with bounded declared lengths it
+    returns an error or a value: the failure of the source is never waited for. *)
+Theorem decode_source_total : forall unp s,
+    decode_source unp s <> OutOfFuel /\ decode_source unp s <> NilNil /\
+    (lengths_bounded (src_bytes s) = true ->
+     decode_source unp s = Err \/ exists v h, decode_source unp s = Ok (v, h)).
+Proof. exact decode_source_total_proof. Qed.
+Print Assumptions decode_source_total.
+
+(** ... and a source that fails before the end of an input can only turn the value of that input into an error, never
+    into another value: if the complete input [src_bytes s ++ more] decodes to [res], then decoding from the source that
+    fails after [src_bytes s] returns [res] (it was complete already) or an error -- a damaged record is never decoded
+    to something it does not say. *)
+Theorem failed_source_never_changes_value : forall unp s more res,
+    decode unp (src_bytes s ++ more) = Ok res ->
+    lengths_bounded (src_bytes s) = true ->
+    decode_source unp s = Ok res \/ decode_source unp s = Err.
+Proof. exact failed_source_never_changes_value_proof. Qed.
+Print Assumptions failed_source_never_changes_value.
 
 (** function.go's envUnpickler: a value (the heap only grows), a returned error, or a Go runtime error
     (failed unchecked type assertion / index out of range) -- nothing else, in particular never nil. *)
@@ -72,3 +94,9 @@ Proof. vm_compute. reflexivity. Qed.
 Example lengths_unbounded_ex : lengths_bounded [opBINUNICODE; 255; 255; 255; 127; 97; opSTOP] = false
                                /\ decode None [opBINUNICODE; 255; 255; 255; 127; 97; opSTOP] = Crash.
 Proof. vm_compute. split; reflexivity. Qed.
+
+(** a source that fails inside the text of an INT (no newline yet): an error; the complete input: the value *)
+Example failing_source_ex :
+  decode_source None (mkSource [opINT; 49; 48] EndError) = Err
+  /\ (exists h, decode None ([opINT; 49; 48] ++ [10; opSTOP]) = Ok (VInt 10, h)).
+Proof. vm_compute. split; [reflexivity|eexists; reflexivity]. Qed.
